@@ -606,7 +606,7 @@ func vf25Tail(sent []byte, n int) []byte { return sent[len(sent)-n:] }
 
 // ---- generators ----
 
-var vf25Sizes = []int{0, 1, 1<<14 - 1, 1 << 14, 1<<14 + 1, 1 << 15}
+var vf25Sizes = []int{0, 1, 1<<14 - 1, 1 << 14, 1<<14 + 1, 1 << 15, 123674, 140000} // the last two: one Write that is still pending when the dynamic record size reaches its maximum
 var vf25BufChoices = []int{1, 2, 7, 512, 1<<14 - 1, 1 << 14, 1<<14 + 1, 1 << 15, 1 << 16}
 
 var vf25ParrotCacheOnce sync.Once
